@@ -110,7 +110,10 @@ pub struct ObjRec {
     pub destroyed_in: Option<OpKind>,
     pub in_flight: bool,
     /// Object::drop for it is in progress (it may or may not be in the queue yet).
-    pub returning: bool,
+    /// number of `op_release` calls for this object whose drop has not finished
+    /// (two can overlap: the tail of one return, after the push, and the next
+    /// holder's return)
+    pub returning: u32,
 }
 
 #[derive(Clone, Debug, PartialEq, Eq, Hash)]
@@ -149,6 +152,9 @@ pub struct World {
     pub close_begun: bool,
     pub close_returned: bool,
     pub abandoned: u32,
+    /// `Object::take` / `retain` calls begun so far (C09 answers for capacity
+    /// lost in a history that contains one)
+    pub takes_retains: u32,
     pub ops: BTreeMap<usize, (OpKind, Option<usize>)>,
     pub gets: Vec<GetRec>,
     pub hands: BTreeMap<usize, Vec<Object<Mgr>>>,
@@ -211,6 +217,7 @@ pub fn init_world(cfg: PoolCfg, base: &[&'static str]) {
             close_begun: false,
             close_returned: false,
             abandoned: 0,
+            takes_retains: 0,
             ops: BTreeMap::new(),
             gets: Vec::new(),
             hands: BTreeMap::new(),
@@ -260,7 +267,18 @@ impl World {
     /// specific statement that covers the operations this history contains.
     pub fn blame(&self) -> Vec<&'static str> {
         if self.resizes_begun > 0 && !self.close_begun {
-            vec!["C07"]
+            // C09: take() "frees the slot", retain() "does not reduce the
+            // pool's capacity" - also in histories with a resize
+            let mut v = vec!["C07"];
+            if self.takes_retains > 0 && self.base.contains(&"C09") {
+                v.push("C09");
+            }
+            // C03 is quantified over "every pool state reachable by a
+            // preceding history", resized pools included
+            if self.abandoned > 0 && self.base.contains(&"C03") {
+                v.push("C03");
+            }
+            v
         } else if self.close_begun {
             vec!["C06"]
         } else {
@@ -528,7 +546,7 @@ impl World {
             shown: None,
             destroyed_in: None,
             in_flight: true,
-            returning: false,
+            returning: 0,
         });
         self.check_c01("object constructed");
         id
@@ -1032,14 +1050,13 @@ pub fn op_release(who: usize) -> bool {
     let (closed_before, surplus_before) = w(|w| {
         w.begin_op(who, OpKind::Release);
         w.objs[id].loc = Loc::Pool;
-        w.objs[id].returning = true;
+        w.objs[id].returning += 1;
         (w.close_returned, false)
     });
     let _ = surplus_before;
     drop(o);
     w(|w| {
-        w.objs[id].in_flight = false;
-        w.objs[id].returning = false;
+        w.objs[id].returning -= 1;
         // kept = still alive AND still the pool's (a concurrent retain() may
         // have handed it to its caller in the meantime)
         let alive = w.objs[id].alive && w.objs[id].loc == Loc::Pool;
@@ -1074,6 +1091,7 @@ pub fn op_take(who: usize) -> bool {
     trace!("  caller {} takes object {}", who, id);
     w(|w| {
         w.begin_op(who, OpKind::Take);
+        w.takes_retains += 1;
         w.objs[id].loc = Loc::Taken;
     });
     let inner = Object::take(o);
@@ -1091,6 +1109,7 @@ pub fn op_retain(who: usize, pool: &Pool<Mgr>) {
     trace!("  caller {} retain", who);
     w(|w| {
         w.begin_op(who, OpKind::Retain);
+        w.takes_retains += 1;
         w.in_retain = true;
     });
     let mut visited: Vec<(usize, bool)> = Vec::new();
@@ -1098,8 +1117,8 @@ pub fn op_retain(who: usize, pool: &Pool<Mgr>) {
     // lock: determined at the first predicate call (which happens under the
     // lock) - pool-owned, not in the hands of a get(), and not in the middle of
     // being returned.
-    let certainly_idle = |w: &World| -> Vec<usize> { w.objs.iter().enumerate().filter(|(_, o)| o.alive && o.loc == Loc::Pool && !o.in_flight && !o.returning).map(|(i, _)| i).collect() };
-    let idle_at_start: Vec<usize> = w(|w| certainly_idle(w));
+    let certainly_idle = |w: &World| -> Vec<usize> { w.objs.iter().enumerate().filter(|(_, o)| o.alive && o.loc == Loc::Pool && !o.in_flight && o.returning == 0).map(|(i, _)| i).collect() };
+    let idle_at_start: Vec<(usize, u32)> = w(|w| certainly_idle(w).into_iter().map(|i| (i, w.objs[i].handouts as u32)).collect());
     let mut must_visit: Option<Vec<usize>> = None;
     let r = pool.retain(|o: &Obj, m: Metrics| {
         let id = o.id;
@@ -1149,7 +1168,7 @@ pub fn op_retain(who: usize, pool: &Pool<Mgr>) {
             // call and is still untouched after it
             None => {
                 let now = certainly_idle(w);
-                idle_at_start.iter().copied().filter(|i| now.contains(i) && w.objs[*i].handouts == w.objs[*i].handouts).collect()
+                idle_at_start.iter().filter(|(i, h)| now.contains(i) && w.objs[*i].handouts as u32 == *h).map(|(i, _)| *i).collect()
             }
         };
         let missed: Vec<usize> = required.iter().copied().filter(|i| !visited.iter().any(|v| v.0 == *i)).collect();
